@@ -463,3 +463,296 @@ Proof.
 Qed.
 
 End Moves.
+
+(* ================= one BFS iteration of the simulation against the multitape step ================= *)
+Section SimStep.
+Variable m : mntm.
+Hypothesis Hvt : valid_tapes m = true.
+
+Definition good (n : mcfg) : Prop :=
+  wfs n /\ Forall (fun t => t_blank t = mt_blank m) (snd n) /\ length (snd n) = mt_n m.
+Definition sim_rel (c : ecfg) (n : mcfg) : Prop :=
+  fst (fst c) = fst n /\ snd (fst c) = encode (snd n).
+
+Lemma delta_alts_len q k alts : mt_delta m q k = Some alts ->
+  Forall (fun a : malt => length (snd a) = mt_n m) alts.
+Proof.
+  unfold valid_tapes in Hvt. apply andb_true_iff in Hvt. destruct Hvt as [_ H].
+  rewrite forallb_forall in H. unfold mt_delta.
+  destruct (assoc q (mt_trans m)) as [row|] eqn:E; [|discriminate].
+  intro Hs. apply assoc_In in E. apply assocl_In in Hs.
+  specialize (H _ E). cbn [snd] in H. rewrite forallb_forall in H. specialize (H _ Hs). cbn [snd] in H.
+  rewrite forallb_forall in H. apply Forall_forall. intros a Ha. apply Nat.eqb_eq. apply H. exact Ha.
+Qed.
+
+Lemma good_apply n a : good n -> length (snd a) = mt_n m -> good (mntm_apply n a).
+Proof.
+  intros [Hw [Hb Hl]] Ha. split; [exact (proj1 (mntm_apply_abs n a Hw))|]. split.
+  - unfold mntm_apply. cbn [snd]. apply Forall_forall. intros t Ht. apply in_map_iff in Ht.
+    destruct Ht as [[[w d] t0] [<- Hin]]. cbn [fst snd]. apply in_combine_r in Hin.
+    rewrite Forall_forall in Hb. exact (Hb _ Hin).
+  - unfold mntm_apply. cbn [snd]. rewrite map_length, combine_length. lia.
+Qed.
+
+Lemma sim_alt_encode ts a : Forall wf ts -> Forall (fun t => t_blank t = mt_blank m) ts ->
+  length (snd a) = length ts ->
+  exists pos, sim_alt (mt_blank m) (encode ts) a = Ok (fst a, encode (act_all (snd a) ts), pos).
+Proof.
+  intros Hw Hb Hl. unfold sim_alt.
+  pose proof (apply_moves_encodes (mt_blank m) ts (snd a) [] [] Hw Hb Hl (or_introl eq_refl)) as H.
+  cbn [app length] in H. rewrite !app_nil_r in H. rewrite H. cbn [bind fst snd]. eexists. reflexivity.
+Qed.
+
+Lemma mapR_sim ts alts : Forall wf ts -> Forall (fun t => t_blank t = mt_blank m) ts ->
+  Forall (fun a : malt => length (snd a) = length ts) alts ->
+  exists new, mapR (sim_alt (mt_blank m) (encode ts)) alts = Ok new /\
+    Forall2 (fun (c' : ecfg) (a : malt) => fst (fst c') = fst a /\ snd (fst c') = encode (act_all (snd a) ts)) new alts.
+Proof.
+  intros Hw Hb. induction 1 as [|a alts Ha _ IH].
+  - exists []. split; [reflexivity|constructor].
+  - destruct IH as [new [Hn HF]]. destruct (sim_alt_encode ts a Hw Hb Ha) as [pos Hp].
+    exists ((fst a, encode (act_all (snd a) ts), pos) :: new). split.
+    + cbn [mapR]. rewrite Hp, Hn. reflexivity.
+    + constructor; [split; reflexivity|exact HF].
+Qed.
+
+(* what sim_expand does on an entry that encodes the multitape configuration n *)
+Lemma sim_expand_rel c n : sim_rel c n -> good n ->
+  if memb (fst n) (mt_finals m) then sim_expand m c = inl (Ok c)
+  else match mt_delta m (fst n) (map t_read (snd n)) with
+       | None => sim_expand m c = inr []
+       | Some alts => exists new, sim_expand m c = inr new /\
+                        Forall2 (fun c' a => sim_rel c' (mntm_apply n a)) new alts
+       end.
+Proof.
+  destruct c as [[q ext] pos]. intros [Hq He] [Hw [Hb Hl]]. cbn [fst snd] in Hq, He. subst q ext.
+  unfold sim_expand. destruct (memb (fst n) (mt_finals m)); [reflexivity|].
+  rewrite (read_heads_encode (snd n) Hw), heads_key_syms.
+  destruct (mt_delta m (fst n) (map t_read (snd n))) as [alts|] eqn:Hd; [|reflexivity].
+  assert (Hal : Forall (fun a : malt => length (snd a) = length (snd n)) alts).
+  { rewrite Hl. exact (delta_alts_len _ _ _ Hd). }
+  destruct (mapR_sim (snd n) alts Hw Hb Hal) as [new [Hn HF]]. exists new. rewrite Hn.
+  split; [reflexivity|]. clear Hn Hal Hd. induction HF as [|c' a new alts [H1 H2] _ IH]; constructor; [|exact IH].
+  split; [exact H1|exact H2].
+Qed.
+
+Lemma Forall2_In_l {A B} (R : A -> B -> Prop) l1 l2 x : Forall2 R l1 l2 -> In x l1 -> exists y, In y l2 /\ R x y.
+Proof.
+  induction 1 as [|a b l1 l2 Hab _ IH]; intros []; [subst; exists b; split; [left; reflexivity|exact Hab]|].
+  destruct (IH H) as [y [Hy Hr]]. exists y. split; [right; exact Hy|exact Hr].
+Qed.
+
+Lemma Forall2_In_r {A B} (R : A -> B -> Prop) l1 l2 y : Forall2 R l1 l2 -> In y l2 -> exists x, In x l1 /\ R x y.
+Proof.
+  induction 1 as [|a b l1 l2 Hab _ IH]; intros []; [subst; exists a; split; [left; reflexivity|exact Hab]|].
+  destruct (IH H) as [x [Hx Hr]]. exists x. split; [right; exact Hx|exact Hr].
+Qed.
+
+Lemma sim_inl_facts c n o : sim_rel c n -> good n -> sim_expand m c = inl o ->
+  o = Ok c /\ mt_final m (abs_mcfg n).
+Proof.
+  intros Hr Hg He. pose proof (sim_expand_rel c n Hr Hg) as H.
+  destruct (memb (fst n) (mt_finals m)) eqn:Ef.
+  - rewrite H in He. inversion He. split; [reflexivity|]. apply memb_In. exact Ef.
+  - destruct (mt_delta m (fst n) (map t_read (snd n))) as [alts|].
+    + destruct H as [new [H _]]. rewrite H in He. discriminate.
+    + rewrite H in He. discriminate.
+Qed.
+
+Lemma sim_inr_facts c n new : sim_rel c n -> good n -> sim_expand m c = inr new ->
+  ~ mt_final m (abs_mcfg n) /\
+  (forall c', In c' new -> exists n', sim_rel c' n' /\ good n' /\ mstep m (abs_mcfg n) (abs_mcfg n')) /\
+  (forall z, mstep m (abs_mcfg n) z ->
+     exists c' n', In c' new /\ sim_rel c' n' /\ good n' /\ mzcfg_eq (abs_mcfg n') z).
+Proof.
+  intros Hr Hg He. pose proof (sim_expand_rel c n Hr Hg) as H.
+  assert (Hh : map t_read (snd n) = zheads (snd (abs_mcfg n))) by apply heads_view.
+  destruct (memb (fst n) (mt_finals m)) eqn:Ef; [rewrite H in He; discriminate|].
+  apply memb_false in Ef. split; [exact Ef|].
+  destruct (mt_delta m (fst n) (map t_read (snd n))) as [alts|] eqn:Hd.
+  - destruct H as [new' [H HF]]. rewrite H in He. inversion He; subst new'. clear He H.
+    pose proof (delta_alts_len _ _ _ Hd) as Hlen. rewrite Forall_forall in Hlen.
+    rewrite Hh in Hd. destruct Hg as [Hw Hg'].
+    split.
+    + intros c' Hc'. destruct (Forall2_In_l _ _ _ _ HF Hc') as [a [Ha Hrel]].
+      exists (mntm_apply n a). split; [exact Hrel|]. split; [apply good_apply; [split; assumption|exact (Hlen _ Ha)]|].
+      exists alts, (fst a), (snd a). split; [exact Hd|]. split; [destruct a; exact Ha|].
+      split; [reflexivity|]. exact (proj2 (mntm_apply_abs n a Hw)).
+    + intros z [alts' [q' [mv [Hd' [Hin [Hq Hz]]]]]]. cbn [abs_mcfg fst] in Hd', Hd. rewrite Hd in Hd'.
+      inversion Hd'; subst alts'.
+      destruct (Forall2_In_r _ _ _ _ HF Hin) as [c' [Hc' Hrel]].
+      exists c', (mntm_apply n (q', mv)). split; [exact Hc'|]. split; [exact Hrel|].
+      split; [apply good_apply; [split; assumption|exact (Hlen _ Hin)]|].
+      split; [cbn; congruence|]. eapply F2zeq_trans; [exact (proj2 (mntm_apply_abs n (q', mv) Hw))|].
+      apply F2zeq_sym. exact Hz.
+  - rewrite H in He. inversion He; subst new. split; [intros c' []|].
+    intros z [alts' [q' [mv [Hd' _]]]]. cbn [abs_mcfg fst] in Hd'. rewrite <- Hh, Hd in Hd'. discriminate.
+Qed.
+
+End SimStep.
+
+(* ================= the BFS of the simulation ================= *)
+Section SimBFS.
+Variable m : mntm.
+Hypothesis Hvt : valid_tapes m = true.
+
+Lemma sim_bfs_eq fuel queue : sim_bfs m fuel queue =
+  match queue with
+  | [] => ([], Err Reject)
+  | c :: q =>
+    match fuel with
+    | 0 => ([], Err Fuel)
+    | S f => match sim_expand m c with
+             | inl o => ([c], o)
+             | inr new => let (ys, o) := sim_bfs m f (q ++ new) in (c :: ys, o)
+             end
+    end
+  end.
+Proof. destruct fuel; reflexivity. Qed.
+
+(* soundness: an accepting end is an entry encoding a reachable configuration in a final state;
+   no exception other than the rejection *)
+Lemma sim_bfs_sound w fuel : forall queue ys o,
+  (forall c, In c queue -> exists n, sim_rel c n /\ good m n /\ mreachable m w (abs_mcfg n)) ->
+  sim_bfs m fuel queue = (ys, o) ->
+  match o with
+  | Ok cl => exists n, sim_rel cl n /\ mreachable m w (abs_mcfg n) /\ mt_final m (abs_mcfg n)
+  | Err Reject => True
+  | Err Fuel => True
+  | Err _ => False
+  end.
+Proof.
+  induction fuel as [|f IH]; intros queue ys o Hq; rewrite sim_bfs_eq; destruct queue as [|c q].
+  - intro H. inversion H; subst. exact I.
+  - intro H. inversion H; subst. exact I.
+  - intro H. inversion H; subst. exact I.
+  - destruct (Hq c (or_introl eq_refl)) as [n [Hr [Hg Hreach]]].
+    destruct (sim_expand m c) as [o'|new] eqn:He.
+    + intro H. inversion H; subst. destruct (sim_inl_facts m Hvt c n o Hr Hg He) as [-> Hf].
+      exists n. split; [exact Hr|]. split; assumption.
+    + destruct (sim_bfs m f (q ++ new)) as [ys1 o1] eqn:Er. intro H. inversion H; subst.
+      destruct (sim_inr_facts m Hvt c n new Hr Hg He) as [_ [Hnew _]].
+      apply (IH (q ++ new) ys1 o); [|exact Er].
+      intros c' Hc'. apply in_app_iff in Hc'. destruct Hc' as [Hc'|Hc'].
+      * apply Hq. right. exact Hc'.
+      * destruct (Hnew c' Hc') as [n' [Hr' [Hg' Hs]]]. exists n'. split; [exact Hr'|]. split; [exact Hg'|].
+        destruct Hreach as [k Hk]. exists (S k). eapply mreach_snoc; eassumption.
+Qed.
+
+Definition sclosed (l all : list ecfg) : Prop :=
+  forall p, In p l -> forall n, sim_rel p n -> good m n ->
+    ~ mt_final m (abs_mcfg n) /\
+    forall z, mstep m (abs_mcfg n) z ->
+      exists c n', In c all /\ sim_rel c n' /\ good m n' /\ mzcfg_eq (abs_mcfg n') z.
+
+Lemma sim_bfs_reject fuel : forall P queue ys,
+  (forall c, In c (P ++ queue) -> exists n, sim_rel c n /\ good m n) ->
+  sclosed P (P ++ queue) ->
+  sim_bfs m fuel queue = (ys, Err Reject) ->
+  (forall c, In c (P ++ queue) -> In c (P ++ ys)) /\ sclosed (P ++ ys) (P ++ ys).
+Proof.
+  induction fuel as [|f IH]; intros P queue ys Hg Hcl; rewrite sim_bfs_eq; destruct queue as [|c q].
+  - intro H. inversion H; subst. rewrite app_nil_r in *. split; [auto|exact Hcl].
+  - discriminate.
+  - intro H. inversion H; subst. rewrite app_nil_r in *. split; [auto|exact Hcl].
+  - destruct (sim_expand m c) as [o'|new] eqn:He.
+    + intro H. inversion H; subst. exfalso.
+      destruct (Hg c) as [n [Hr Hgn]]; [apply in_app_iff; right; left; reflexivity|].
+      destruct (sim_inl_facts m Hvt c n _ Hr Hgn He) as [Hx _]. discriminate.
+    + destruct (sim_bfs m f (q ++ new)) as [ys1 o1] eqn:Er. intro H. inversion H; subst.
+      assert (Hsub : forall x, In x (P ++ c :: q) -> In x ((P ++ [c]) ++ q ++ new)).
+      { intros x Hx. rewrite !in_app_iff in *. simpl in *. tauto. }
+      destruct (IH (P ++ [c]) (q ++ new) ys1) as [I1 I2].
+      * intros x Hx. rewrite !in_app_iff in Hx. destruct Hx as [[Hx|[Hx|[]]]|[Hx|Hx]].
+        -- apply Hg. apply in_app_iff. left. exact Hx.
+        -- subst. apply Hg. apply in_app_iff. right. left. reflexivity.
+        -- apply Hg. apply in_app_iff. right. right. exact Hx.
+        -- destruct (Hg c) as [n [Hr Hgn]]; [apply in_app_iff; right; left; reflexivity|].
+           destruct (sim_inr_facts m Hvt c n new Hr Hgn He) as [_ [Hnew _]].
+           destruct (Hnew x Hx) as [n' [Hr' [Hg' _]]]. exists n'. split; assumption.
+      * intros p Hp n Hr Hgn. apply in_app_iff in Hp. destruct Hp as [Hp|[Hp|[]]].
+        -- destruct (Hcl p Hp n Hr Hgn) as [Hnf Hs]. split; [exact Hnf|].
+           intros z Hz. destruct (Hs z Hz) as [x [n' [Hx Hrest]]]. exists x, n'. split; [apply Hsub; exact Hx|exact Hrest].
+        -- subst p. destruct (sim_inr_facts m Hvt c n new Hr Hgn He) as [Hnf [_ Hall]]. split; [exact Hnf|].
+           intros z Hz. destruct (Hall z Hz) as [x [n' [Hx Hrest]]]. exists x, n'.
+           split; [|exact Hrest]. rewrite !in_app_iff. right. right. exact Hx.
+      * exact Er.
+      * split.
+        -- intros x Hx. specialize (Hsub x Hx). specialize (I1 x Hsub).
+           rewrite !in_app_iff in *. simpl in *. tauto.
+        -- replace (P ++ c :: ys1) with ((P ++ [c]) ++ ys1) by (rewrite <- app_assoc; reflexivity).
+           exact I2.
+Qed.
+
+Lemma sclosed_reach l : sclosed l l -> forall k c n z, In c l -> sim_rel c n -> good m n ->
+  mreach m k (abs_mcfg n) z ->
+  exists c' n', In c' l /\ sim_rel c' n' /\ good m n' /\ mzcfg_eq (abs_mcfg n') z.
+Proof.
+  intros Hcl. induction k as [|k IH]; intros c n z Hc Hr Hg Hreach; inversion Hreach; subst.
+  - exists c, n. split; [exact Hc|]. split; [exact Hr|]. split; [exact Hg|assumption].
+  - destruct (Hcl c Hc n Hr Hg) as [_ Hs].
+    match goal with H : mstep m _ _ |- _ => destruct (Hs _ H) as [p1 [n1 [Hp1 [Hr1 [Hg1 He1]]]]] end.
+    apply (IH p1 n1 z Hp1 Hr1 Hg1). eapply mreach_cong_l; [apply mzcfg_eq_sym; exact He1|assumption].
+Qed.
+
+Lemma good_start w : good m (mntm_start m w).
+Proof.
+  split; [exact (proj1 (mntm_start_abs m w))|]. unfold mntm_start. cbn [snd]. split.
+  - constructor; [reflexivity|]. apply Forall_forall. intros t Ht. apply repeat_spec in Ht. subst. reflexivity.
+  - cbn [length]. rewrite repeat_length. unfold valid_tapes in Hvt. apply andb_true_iff in Hvt.
+    destruct Hvt as [H _]. apply Nat.leb_le in H. lia.
+Qed.
+
+Lemma sim_initial w : ext_initial (snd (mntm_start m w)) = Ok (encode (snd (mntm_start m w))).
+Proof.
+  apply ext_initial_encode. unfold mntm_start. cbn [snd].
+  constructor; [split; [reflexivity|apply wf_init]|].
+  apply Forall_forall. intros t Ht. apply repeat_spec in Ht. subst. split; [reflexivity|apply wf_init].
+Qed.
+
+Lemma sim_accepts_spec fuel w :
+  (sim_accepts m fuel w = Ok true -> mreach_final m w) /\
+  (sim_accepts m fuel w = Ok false -> ~ mreach_final m w) /\
+  (sim_accepts m fuel w = Ok true \/ sim_accepts m fuel w = Ok false \/ sim_accepts m fuel w = Err Fuel).
+Proof.
+  unfold sim_accepts, sim_stepwise. rewrite sim_initial.
+  destruct (sim_bfs m fuel [(mt_init m, encode (snd (mntm_start m w)), 0)]) as [ys o] eqn:E. cbn [snd].
+  set (c0 := (mt_init m, encode (snd (mntm_start m w)), 0)) in *.
+  assert (Hr0 : sim_rel c0 (mntm_start m w)) by (split; reflexivity).
+  pose proof (good_start w) as Hg0. destruct (mntm_start_abs m w) as [_ Hst].
+  assert (Hq : forall c, In c [c0] -> exists n, sim_rel c n /\ good m n /\ mreachable m w (abs_mcfg n)).
+  { intros c [<-|[]]. exists (mntm_start m w). split; [exact Hr0|]. split; [exact Hg0|].
+    exists 0. apply mr_0. apply mzcfg_eq_sym. exact Hst. }
+  pose proof (sim_bfs_sound w fuel [c0] ys o Hq E) as Hs.
+  destruct o as [cl|e]; simpl verdict_of.
+  - split; [|split; [intro Hx; discriminate Hx|auto]]. intros _. destruct Hs as [n [_ [[k Hk] Hf]]].
+    exists k, (abs_mcfg n). split; assumption.
+  - destruct e; try contradiction; simpl verdict_of.
+    + split; [intro Hx; discriminate Hx|]. split; [|auto]. intros _ [k [z [Hreach Hf]]].
+      destruct (sim_bfs_reject fuel [] [c0] ys) as [I1 I2].
+      * intros c [<-|[]]. exists (mntm_start m w). split; assumption.
+      * intros p [].
+      * exact E.
+      * cbn [app] in I1, I2.
+        assert (Hreach' : mreach m k (abs_mcfg (mntm_start m w)) z)
+          by (eapply mreach_cong_l; [apply mzcfg_eq_sym; exact Hst|exact Hreach]).
+        destruct (sclosed_reach ys I2 k c0 _ z (I1 c0 (or_introl eq_refl)) Hr0 Hg0 Hreach')
+          as [c' [n' [Hc' [Hr' [Hg' [Hq' _]]]]]].
+        destruct (I2 c' Hc' n' Hr' Hg') as [Hnf _]. apply Hnf. unfold mt_final in *.
+        cbn [abs_mcfg fst] in *. rewrite Hq'. exact Hf.
+    + split; [intro Hx; discriminate Hx|]. split; [intro Hx; discriminate Hx|auto].
+Qed.
+
+End SimBFS.
+
+(* the two simulators of the library agree whenever both return *)
+Lemma verdict_agreement m w f1 f2 b1 b2 : valid_mntm m = true -> valid_tapes m = true ->
+  sim_accepts m f1 w = Ok b1 -> mntm_accepts m f2 w = Ok b2 -> b1 = b2.
+Proof.
+  intros Hv Hvt H1 H2.
+  destruct (sim_accepts_spec m Hvt f1 w) as [Sa [Sr _]].
+  destruct (mntm_accepts_spec m Hv f2 w) as [Na [Nr _]].
+  destruct b1, b2; try reflexivity; exfalso.
+  - exact (Nr H2 (Sa H1)).
+  - exact (Sr H1 (Na H2)).
+Qed.
